@@ -300,6 +300,36 @@ func ForEco(name string) Scenario {
 	for _, m := range marked {
 		ops = append(ops, cmp(va, m), cmp(m, va))
 	}
+	// many comparisons of a deeply nested / very long version in ONE operation (depth counters,
+	// recursion guards and scratch state that leak a little per call)
+	deep := va + strings.Repeat("-0", 40) + "-1"
+	ops = append(ops, Op{Name: "DeepCompare x40", Run: func(s *Shared) string {
+		d, err := s.Eco.Parse(deep)
+		if err != nil {
+			d, err = s.Eco.Parse(va + strings.Repeat(".0", 40) + ".1")
+		}
+		if err != nil {
+			return "n/a"
+		}
+		a := s.Vers[va]
+		out := 0
+		for i := 0; i < 40; i++ {
+			out += d.Compare(a) - a.Compare(d)
+		}
+		return fmt.Sprint(out)
+	}})
+	// a Compare-equal respelling of the first bound, parsed after it: both keep their own text
+	if alt := map[string]string{"npm": "v1.0.0", "golang": "1.0.0", "nuget": "v1.0.0", "pypi": "1.0.0", "debian": "0:1.0", "rpm": "0:1.0", "maven": "1.0.0", "gem": "v1.0", "github": "v1.0.0", "mattermost": "v1.0.0", "composer": "v1.0.0", "alpm": "0:1.0", "gentoo": "1.0-r0", "alpine": "1.0-r0", "hex": "1.0.0+b", "cargo": "1.0.0+b", "semver": "1.0.0+b", "cran": "1-0", "conan": "1.0.0+b", "apache": "1.0.0"}[name]; alt != va {
+		ops = append(ops, Op{Name: fmt.Sprintf("Respell(%q,%q)", va, alt), Run: func(s *Shared) string {
+			x, e1 := s.Eco.Parse(va)
+			y, e2 := s.Eco.Parse(alt)
+			if e1 != nil || e2 != nil {
+				return "n/a"
+			}
+			z, _ := s.Eco.Parse(va)
+			return fmt.Sprint(x.String(), "|", y.String(), "|", z.String(), "|", x.Compare(y), "|", s.Vers[va].String())
+		}})
+	}
 	for _, l := range longer {
 		if _, err := eco.SafeParse(e, l); err == nil {
 			ops = append(ops, cmp(vb, l), cmp(l, vb))
